@@ -14,6 +14,28 @@ Theorem c10_group_count : forall rep_name rep_sat o3 o4 pkgs budget gs,
 Proof. exact group_with_count. Qed.
 Print Assumptions c10_group_count.
 
+(* The property text, read literally, allows at most [budget] groups for every
+   budget from 0 upward.  For budget 0 that is FALSE of the model and of the
+   code: with at least one package there is one group (two layers with the top
+   layer) [finding C10-F1, tag group-count-exceeds-budget/budget-zero].  For
+   budget >= 1 the literal bound is c10_group_count. *)
+Theorem c10_group_count_budget_zero_refuted :
+  exists pkgs gs, NoDup (map p_name pkgs) /\
+    group (fun r => r) (fun _ _ => Ok true) pkgs 0 = Ok gs /\ ~ (Z.of_nat (List.length gs) <= 0)%Z.
+Proof.
+  exists [w_pkg "a"; w_pkg "b"], [[w_pkg "a"; w_pkg "b"]]. split; [| split].
+  - repeat constructor; simpl; intuition discriminate.
+  - exact budget_zero_one_group.
+  - simpl. lia.
+Qed.
+Print Assumptions c10_group_count_budget_zero_refuted.
+
+Theorem c10_group_count_literal : forall rep_name rep_sat o3 o4 pkgs budget gs,
+  (1 <= budget)%Z -> group_with rep_name rep_sat o3 o4 pkgs budget = Ok gs ->
+  (Z.of_nat (List.length gs) <= budget)%Z.
+Proof. intros rn rs o3 o4 pkgs b gs Hb H. pose proof (group_with_count rn rs o3 o4 pkgs b gs H). lia. Qed.
+Print Assumptions c10_group_count_literal.
+
 (* After fix d47e591 (the slice is no longer sized by the budget; it used to be
    make([]*group, 0, budget): panic for budget < 0, reported under C15) a
    negative budget reaching groupByOriginAndSize yields exactly one merged
